@@ -222,7 +222,7 @@ def cv_obligations():
 
 
 def c11_obligations():
-    return utils_obligations() + cv_obligations()
+    return utils_obligations() + cv_obligations() + cvsplit_obligations() + bss_obligations()
 
 
 _BASE_UTILS = os.path.join("verde", "base", "utils.py")
@@ -267,3 +267,57 @@ def gridder_obligations():
     _get_extra_coords_names against the naming and defaulting rules of Model/Gridder.v (property C05);
     to hook it: `obligations = pylite_tie.gridder_obligations` in harness/c05.py"""
     return tie("GridderSrc", _BASE_CLASSES, GRIDDER_FUNCS, "pylite_gridder.v.tmpl", GRIDDER_THEOREMS, GRIDDER_IMPORTS)
+
+
+SURFER_FUNCS = ["_read_surfer_header", "_check_surfer_integrity"]
+SURFER_THEOREMS = ["src_read_surfer_header_eq", "src_check_surfer_integrity_eq"]
+SURFER_IMPORTS = ("From Verde Require Import Lib.Dyadic Model.Surfer Proofs.SurferProofs Proofs.PyLiteBridge "
+                  "Proofs.PyLiteSurfer.")
+SURFER_SPEC = ("SurferSrc", os.path.join("verde", "io.py"), SURFER_FUNCS, "pylite_surfer.v.tmpl", SURFER_IMPORTS)
+
+
+def surfer_obligations():
+    """verde/io.py _read_surfer_header / _check_surfer_integrity against Model/Surfer.v (property C19)"""
+    tag, mod_, funcs, tmpl, imports = SURFER_SPEC
+    return tie(tag, mod_, funcs, tmpl, SURFER_THEOREMS, imports)
+
+
+CVSPLIT_FUNCS = [(os.path.join("verde", "utils.py"), "partition_by_sum"),
+                 "BlockKFold._iter_test_indices",
+                 (os.path.join("verde", "base", "base_classes.py"), "BaseBlockCrossValidator.split")]
+CVSPLIT_THEOREMS = ["src_BlockKFold_iter_test_indices_eq", "src_BlockKFold_split_eq"]
+CVSPLIT_IMPORTS = ("From Coq Require Import ZifyBool Permutation.\n"
+                   "From Verde Require Import Model.CrossVal Proofs.CrossValProofs Proofs.PyLiteBridge Proofs.PyLiteCV.")
+CVSPLIT_SPEC = ("CVSplitSrc", os.path.join("verde", "model_selection.py"), CVSPLIT_FUNCS, "pylite_cvsplit.v.tmpl",
+                CVSPLIT_IMPORTS)
+
+
+def cvsplit_obligations():
+    """BlockKFold._iter_test_indices / BaseBlockCrossValidator.split against Model/CrossVal.v (property C11)"""
+    tag, mod_, funcs, tmpl, imports = CVSPLIT_SPEC
+    return tie(tag, mod_, funcs, tmpl, CVSPLIT_THEOREMS, imports)
+
+
+BSS_FUNCS = ["BlockShuffleSplit._iter_test_indices",
+             (os.path.join("verde", "base", "base_classes.py"), "BaseBlockCrossValidator.split")]
+BSS_THEOREMS = ["src_BlockShuffleSplit_iter_test_indices_eq", "src_BlockShuffleSplit_split_eq"]
+BSS_SPEC = ("BSSSrc", os.path.join("verde", "model_selection.py"), BSS_FUNCS, "pylite_bss.v.tmpl", CVSPLIT_IMPORTS)
+
+
+def bss_obligations():
+    """BlockShuffleSplit._iter_test_indices against Model/CrossVal.v block_shuffle_split (property C11)"""
+    tag, mod_, funcs, tmpl, imports = BSS_SPEC
+    return tie(tag, mod_, funcs, tmpl, BSS_THEOREMS, imports)
+
+
+WINDOWS_FUNCS = ["rolling_window", "expanding_window"]
+WINDOWS_THEOREMS = ["src_expanding_window_eq", "expanding_window_model", "src_rolling_window_eq", "rolling_window_model"]
+WINDOWS_IMPORTS = ("From Verde Require Import Model.CoordCases Model.Blocks Model.Windows Proofs.PyLiteBridge.")
+WINDOWS_SPEC = ("WindowsSrc", os.path.join("verde", "coordinates.py"), WINDOWS_FUNCS, "pylite_windows.v.tmpl",
+                WINDOWS_IMPORTS)
+
+
+def windows_obligations():
+    """rolling_window / expanding_window (validation, window centres, query plumbing) against Model/Windows.v (C14)"""
+    tag, mod_, funcs, tmpl, imports = WINDOWS_SPEC
+    return tie(tag, mod_, funcs, tmpl, WINDOWS_THEOREMS, imports)
